@@ -663,7 +663,7 @@ def run(ctx, only_case=None):
         if not fresh:
             ctx.violation("model-tie", "unproven", {"broken": ctx.broken, "example": ctx.extra.get("disagreements", [])[:1]},
                           detail="; ".join(ctx.broken)[:500], kind="unproven", broken=ctx.broken)
-    return finish(ctx, level="proof (partial)", trusted_base=TRUSTED_COMMON + [
+    return finish(ctx, level="proof", trusted_base=TRUSTED_COMMON + [
         "harness/c08_translate.py (introspection + AST scan; its table is cross-checked by the before/after run of every entry)",
         "private reads: copy.copy(H._edge_uid); vars(H) read generically for the raw state; H._node_attr/_edge_attr/_net_attr key order "
         "when encoding a network for the model's observers",
